@@ -25,7 +25,11 @@ package magic
 
 //@ func magic.dropLastLine
 //@   ensures isPrefixView(result, b)
+//@   ensures [C13_whole] readLimit == 0 || len(b) < readLimit ==> len(result) == len(b)
+//@   ensures [C13_cut] readLimit != 0 && len(b) == readLimit && (exists i :: 0 < i && i < len(b) && b[i] == '\n') ==> 0 < len(result) && len(result) < len(b) && b[len(result)] == '\n' && (forall j :: len(result) < j && j < len(b) ==> b[j] != '\n')
+//@   ensures [C13_oneline] readLimit != 0 && len(b) == readLimit && (forall i :: 0 < i && i < len(b) ==> b[i] != '\n') ==> len(result) == len(b)
 //@   loop 1 invariant -1 <= i && i < len(b) || len(b) == 0 && i == -1
+//@   loop 1 invariant [C13_scan] forall j :: i < j && j < len(b) ==> b[j] != '\n'
 //@   loop 1 decreases i
 
 //@ func magic.vintWidth
@@ -42,8 +46,23 @@ package magic
 //@ func magic.offset$1
 //@   requires offset >= 0
 
+// linesOK(s): every line of s (LF or CRLF terminated; the last one possibly unterminated) is
+// empty or one complete JSON value. Defined by recursion on the first line (trusted spec);
+// view(raw, o, n) is the n bytes at address o of raw's memory.
+//@ ghostfun linesOK(bytes) bool
+//@ spec noCR(l) = ite(len(l) > 0 && l[len(l)-1] == '\r', len(l) - 1, len(l))
+//@ spec lineOK(l) = len(l) == 0 || parseComplete(l)
+
 //@ func magic.NdJSON
+//@   assume [L0] forall o :: forall n :: n <= 0 ==> linesOK(view(raw, o, n))
+//@   assume [L1] forall o :: forall n :: forall i :: 0 <= i && i < n && view(raw, o, n)[i] == '\n' && (forall k :: 0 <= k && k < i ==> view(raw, o, n)[k] != '\n') ==> (linesOK(view(raw, o, n)) == (lineOK(view(raw, o, noCR(view(raw, o, i)))) && linesOK(view(raw, o + i + 1, n - i - 1))))
+//@   assume [L2] forall o :: forall n :: 0 < n && (forall k :: 0 <= k && k < n ==> view(raw, o, n)[k] != '\n') ==> (linesOK(view(raw, o, n)) == lineOK(view(raw, o, noCR(view(raw, o, n)))))
+//@   ghost loop 1 entry: dropped = raw
+//@   ensures [C13_ndjson_lines] result ==> linesOK(dropped)
+//@   ensures [C13_ndjson_count] result ==> len(dropped) > 0
 //@   loop 1 invariant 0 <= objOrArr && objOrArr <= lCount && 0 <= lCount && lCount + len(raw) <= len(old(raw))
+//@   loop 1 invariant lCount + len(raw) <= len(dropped)
+//@   loop 1 invariant [C13_wand] isSuffixView(raw, dropped) && (linesOK(raw) ==> linesOK(dropped))
 //@   loop 1 decreases len(raw)
 
 //@ func magic.sv
